@@ -398,12 +398,17 @@ Definition set_segs (st : lstate) (l : list seg) : lstate :=
 
 Definition is_last (st : lstate) (i : Z) : bool := i =? zlen (segs st) - 1.
 
+Definition head_items (s : seg) : list item :=
+  match sidx s with Some (_, items) => items | None => [] end.
+
+
 (* r.getIndexNow(): lazily (re)build and load the index of segment i *)
 Definition with_index (c : cfg) (st : lstate) (i : Z) : res (lstate * seg * list item) :=
   match znth (segs st) i with
   | None => Err EPanic
   | Some s =>
     if lvirt st then Ok (st, s, [])
+    else if (i =? zlen (segs st) - 1) && negb (cro c) then Ok (st, s, head_items s)   (* the writer's index *)
     else
       do r <- ensure_index (cparams c) (cnewver c) s;
       let '(s', items) := r in
@@ -560,8 +565,6 @@ Fixpoint assign_offsets (next : Z) (ms : list msg) : list msg :=
 
 Definition msg_too_big (m : msg) : bool := max_body <? zlen (mkey m) + zlen (mval m).
 
-Definition head_items (s : seg) : list item :=
-  match sidx s with Some (_, items) => items | None => [] end.
 
 Definition next_time (st : lstate) (s : seg) : Z :=
   match last_opt (head_items s) with Some it => its it | None => wcarry st end.
